@@ -100,9 +100,11 @@ _NUM = [
 ]
 _NUM_EXT = [("INT_CONST_BIN", re.compile(r"0[bB][01]+" + SUF))]
 
-STRICT_ESC = r"\\(?:['\"?\\abfnrtv]|[0-7]{1,3}|x[0-9a-fA-F]+)"
+# Escape sequences take the longest possible digit run (C99 6.4.4.4p7: an
+# octal escape has at most three digits, a hexadecimal one has no limit).
+STRICT_ESC = r"\\(?:['\"?\\abfnrtv]|[0-7]{3}|[0-7]{1,2}(?![0-7])|x[0-9a-fA-F]+(?![0-9a-fA-F]))"
 # documented leniency: backslash + any letter, any digit run, or one of ._~!=&^-
-LENIENT_ESC = r"\\(?:[a-zA-Z._~!=&^\-\\?'\"]|[0-9]+|x[0-9a-fA-F]+)"
+LENIENT_ESC = r"\\(?:[a-wyzA-Z._~!=&^\-\\?'\"]|x(?![0-9a-fA-F])|[0-9]+(?![0-9])|x[0-9a-fA-F]+(?![0-9a-fA-F]))"
 
 
 def _mk(esc, prefixes):
